@@ -58,7 +58,7 @@ T = {
   "Four workload shapes on indexes of which one carries an auto-link rule (nested link per add), with never-read subscribers added and fresh indexes created and first filled under load throughout (client mix; + admin goroutine cycling snapshot / compaction / vacuum / refine / graph vacuum; + index create / import / compress / drop and three kinds of event subscribers; + Close in the middle) with 4-24 clients on shared items run in a -race build with seed-determined sleeps and yields at every hook point and GOMAXPROCS in {2,4,16}. Oracles: no race report in kektordb frames, no panic / fatal error, deadlock only with a dump witness, every acknowledged reinforcement counted, every acknowledged concurrently merged metadata key present, the recorded KV history linearizable per key (porcupine), consistent id maps, state identical after restart, clean failure and durability after Close.",
   "Interleavings are those the scheduler produces here; evidence reports the number of distinct cross-goroutine adjacent hook-point pairs observed. rr is unavailable, so a schedule cannot be replayed (the seed reproduces the operation lists)."),
  "C14": ("vexec", "runtime monitoring with forced schedules (hook gates) + ownership protocol under concurrent admin operations + writer contract",
-  "The complete table of 456 forced schedules {write op, 8 of the 19 being compound sequences on one item} x {SaveSnapshot, RewriteAOF} x {phase boundary} x {write parked between journal and apply | write issued while the admin op is parked} is driven with hook gates; concurrently owned items with increasing sequence numbers are written while snapshots and compactions (also overlapping, also auto-triggered) run; the lazy writer's Flush / Sync / Close / snapshot-mode contract is checked with an atomic acknowledgement counter, free-running and with a forced backlog (writer goroutine parked at its flush point while N writes are acknowledged and the control call is issued). After restart every acknowledged write must be present.",
+  "The complete table of 528 forced schedules {write op, 11 of the 22 being compound sequences on one item or writes straddling the admin operation} x {SaveSnapshot, RewriteAOF} x {phase boundary} x {write parked between journal and apply | write issued while the admin op is parked} is driven with hook gates; concurrently owned items with increasing sequence numbers are written while snapshots and compactions (also overlapping, also auto-triggered) run; the lazy writer's Flush / Sync / Close / snapshot-mode contract is checked with an atomic acknowledgement counter, free-running and with a forced backlog (writer goroutine parked at its flush point while N writes are acknowledged and the control call is issued). After restart every acknowledged write must be present.",
   "Schedule table enumerated completely (exhaustive over that finite table); free-running parts are exploration. Gates use verifhook points."),
  "C18": ("pure", "runtime monitoring: float64 reference kernels with derived tolerances, guard-page overread detection, quantizer laws, arena shadow model under the race detector",
   "Every dispatched distance kernel is compared with a float64 reference over 16 dimensions x 12 magnitude classes with operands placed against a PROT_NONE page (also in a -race/checkptr build); quantizer training percentile, clipping (never wrapping) and round-trip bounds; float16 conversion vs an independent implementation; VGet / scores around VCompress and restart within per-pair derived bounds; the mmap arena is driven directly (alloc / free / reuse / compaction cycles / state save+load / reopen) against a shadow map of content stamps, with concurrent readers under the race detector.",
